@@ -119,3 +119,19 @@ Proof.
   - vm_compute. reflexivity.
   - vm_compute. reflexivity.
 Qed.
+
+(* ---------- the farm limit theorem (FarmLimit.reachable_farm_limit) speaks about real worlds: after ops0 the configured
+   limit is 3 (<= 100) and one farm is stored for the LP denom ---------- *)
+Definition limit_statement : Prop :=
+  exists w0, genesis_world g0 = Ok w0 /\
+    fm_max_farms (fm_cfg (w_fm (run w0 ops0))) = 3 /\
+    List.length (filter (fun f => String.eqb (f_lp f) lp0) (fm_farms (w_fm (run w0 ops0)))) = 1%nat.
+
+Lemma limit_example : limit_statement.
+Proof.
+  unfold limit_statement.
+  destruct (genesis_world g0) as [w0|e] eqn:E; [|vm_compute in E; discriminate].
+  exists w0. split; [reflexivity|].
+  assert (Hw : w0 = match genesis_world g0 with Ok w => w | Err _ => w0 end) by (rewrite E; reflexivity).
+  rewrite Hw. clear. vm_compute. split; reflexivity.
+Qed.
